@@ -310,7 +310,7 @@ func parFailCase(prop string, n, to, failFrom, par int, only bool) {
 	if err != nil {
 		panic(err)
 	}
-	if err := st.Start(ctx); err != nil {
+	if err := func() error { sc, end := startCtx(); defer end(); return st.Start(sc) }(); err != nil {
 		panic(err)
 	}
 	defer st.Stop(ctx) //nolint:errcheck
@@ -412,7 +412,7 @@ func queuedDeleteCase(prop string, n0, n1, n2, a, b int) {
 	if err != nil {
 		panic(err)
 	}
-	if err := st.Start(ctx); err != nil {
+	if err := func() error { sc, end := startCtx(); defer end(); return st.Start(sc) }(); err != nil {
 		panic(err)
 	}
 	defer st.Stop(ctx) //nolint:errcheck
@@ -423,7 +423,7 @@ func queuedDeleteCase(prop string, n0, n1, n2, a, b int) {
 	if err != nil {
 		panic(err)
 	}
-	if err := st.Start(ctx); err != nil {
+	if err := func() error { sc, end := startCtx(); defer end(); return st.Start(sc) }(); err != nil {
 		panic(err)
 	}
 	parked, release := make(chan struct{}), make(chan struct{})
@@ -487,7 +487,7 @@ func flushInHandlerCase(prop string, n, to, more, batch int) {
 	if err != nil {
 		panic(err)
 	}
-	if err := st.Start(ctx); err != nil {
+	if err := func() error { sc, end := startCtx(); defer end(); return st.Start(sc) }(); err != nil {
 		panic(err)
 	}
 	defer st.Stop(ctx) //nolint:errcheck
